@@ -8,6 +8,8 @@ import harness.gen_map as G
 
 def warm(prop):
     F.build_server('gcc20-ubsan')
+    from . import subfam as S
+    S.build_server('gcc20-ubsan')
 
 def payload(c, **kw):
     d = dict(case=c.pub(), ops=[[o, a] for o, a in c.ops][:40]); d.update(kw); return d
@@ -107,6 +109,25 @@ def analyse_map(cases, rep, cfg):
             if c.stream == 'boundary': rep.sample(dict(line=c.base(), span=c.out('span'), stream=c.stream), cap=6)
     rep.notes['predicted_ub_lines_' + cfg] = pred_ub; rep.notes['observed_trap_lines_' + cfg] = obs_ub
 
+def analyse_sub(cases, rep, cfg):
+    pred_ub = obs_ub = 0
+    for c in cases:
+        for op, xi, xm in zip(c.ops, c.impl, c.model):
+            rep.cov['evaluations'] += 1
+            if xm == 'ub': pred_ub += 1
+            if xi == 'ub': obs_ub += 1
+            if c.adm and (xi == 'ub' or xi.startswith('died')):
+                rep.violation(dict(case=c.pub(), ops=c.ops, kind='undefined-behaviour-on-admissible-input', op=op, impl=xi, model=xm[:200], config=cfg, family='sub')); break
+            if c.adm and xm == 'ub':
+                rep.broke(dict(case=c.pub(), ops=c.ops, correspondence='machine-layer model (sub)', why='model reports UB on an input its own predicate calls admissible', op=op)); break
+            if xi != xm:
+                rep.broke(dict(case=c.pub(), ops=c.ops, correspondence='sub family, exact transcript incl. UB verdict', adm=c.adm, op=op, impl=xi[:300], model=xm[:300], config=cfg)); break
+        rep.cov['traces_validated_against_impl'] += 1
+        if c.adm:
+            rep.nontrivial(c.base())
+            if c.stream == 'boundary': rep.sample(dict(line=c.base(), result=c.out('info')), cap=10)
+    rep.notes['sub_predicted_ub_lines_' + cfg] = pred_ub; rep.notes['sub_observed_trap_lines_' + cfg] = obs_ub
+
 def check(prop, tier, seed, replay=None):
     rep = C.Report(prop, tier, seed)
     audit = C.proof_audit(prop)
@@ -123,7 +144,7 @@ def check(prop, tier, seed, replay=None):
         except C.BuildError as e:
             rep.broke(dict(correspondence='op server build (%s)' % cfg, why=str(e), log=e.log[-3000:])); continue
         if replay:
-            c = CM.case_from_replay(replay, insts); cases = [c] if c else []
+            c = CM.case_from_replay(replay, insts) if replay.get('family') != 'sub' else None; cases = [c] if c else []
         else: cases = F.gen_cases(seed, tier, insts)
         F.run_cases(cases, exe)
         analyse_map(cases, rep, cfg)
@@ -134,6 +155,17 @@ def check(prop, tier, seed, replay=None):
             k = 160 if tier == 'quick' else 600
             pick = rnd.sample(bnd, min(len(bnd), k)) + rnd.sample(oth, min(len(oth), k))
             constexpr_run(pick, rep, cfg)
+        if replay and replay.get('family') != 'sub': continue
+        from . import subfam as S, checks_sub as CS
+        try:
+            sinsts, sexe, secs, cached = S.build_server(cfg)
+        except C.BuildError as e:
+            rep.broke(dict(correspondence='sub op server build (%s)' % cfg, why=str(e), log=e.log[-3000:])); continue
+        if replay:
+            c = CS.case_from_replay(replay, sinsts); scases = [c] if c else []
+        else: scases = S.gen_cases(seed, tier, sinsts)
+        S.run_cases(scases, sexe)
+        analyse_sub(scases, rep, cfg)
     rep.assumptions = ['UB kinds other than integer arithmetic and the modelled arrays (lifetime, aliasing) are not modelled; UBSan and constant evaluation witness them on the inputs run',
                        'LP64, two\'s complement']
     return rep.finish(audit)
